@@ -369,8 +369,8 @@ def stepAbort (s : State) (a : ActorId) (l : Local) (c : Choice) : Option State 
     if e.mutex = none then some (s.put a { l with pc := .aBody } { e with mutex := some a }) else none
   | .aBody, .go =>
     if !e.alive then some (s.put a (l.back .ok) e.unlock)
-    else if e.txn.isNone ∨ e.txn ≠ l.t then some (s.put a (l.back .ok) e.unlock)
-    else some (s.put a (l.back .ok) { e with txn := none }.release.unlock)
+    else if e.txn.isSome ∧ e.txn = l.t then some (s.put a (l.back .ok) { e with txn := none }.release.unlock)
+    else some (s.put a (l.back .ok) e.unlock)     -- (callers never pass a nil transaction)
   | _, _ => none
 
 /-! ## continuations -/
